@@ -37,6 +37,10 @@ def rules : List Rule := [
     [M_Client_Start_go2, M_Client_reattach_go1]⟩,
   -- written inside grpcMuxerOnce.Do, read after Do returned in the same call (sync.Once: Do returns after f completed)
   ⟨F_Client_grpcMuxer, .once F_Client_grpcMuxerOnce, [M_Client_getGRPCMuxer], [M_Client_getGRPCMuxer]⟩,
+  -- the same pattern in the net/rpc server: the two stdio channels are made inside stdioOnce.Do by whichever connection
+  -- comes first, and every connection reads them only after its own Do has returned
+  ⟨F_RPCServer_stdoutCh, .once F_RPCServer_stdioOnce, [M_RPCServer_ServeConn], [M_RPCServer_ServeConn]⟩,
+  ⟨F_RPCServer_stderrCh, .once F_RPCServer_stdioOnce, [M_RPCServer_ServeConn], [M_RPCServer_ServeConn]⟩,
   -- written by the acceptSession goroutine before `close(m.sessionErrCh)` (deferred); `session()` reads it only
   -- after receiving from sessionErrCh (channel close happens-before the receive that observes it)
   ⟨F_GRPCServerMuxer_sess, .start, [M_GRPCServerMuxer_acceptSession], [M_GRPCServerMuxer_session]⟩
